@@ -79,6 +79,10 @@ func heapVeiled(r *core.Run, name string) string {
 				}
 			}
 			if idx < 0 {
+				// ... or hands back, by value, a record some of whose fields are assigned only on some of its paths
+				if w := pathDependentRecord(r, fn, c, h); w != "" {
+					return w
+				}
 				continue
 			}
 			// ... and the caller hands that record on to other helpers outside the vocabulary
@@ -101,6 +105,66 @@ func heapVeiled(r *core.Run, name string) string {
 					}
 				}
 			}
+		}
+	}
+	return ""
+}
+
+// pathDependentRecord: helper h (outside the vocabulary) hands back to fn, by value, a record — a struct of a
+// hand-written module type filled in field by field — in which some field is assigned only on some of h's paths or
+// more than once, and fn hands that record (or its address) on to further helpers outside the vocabulary. Which of
+// the alternatives such a field holds is tied to the path h took (for example "a payment address is present exactly
+// when the sponsor check ran"); that tie is not carried through the record, so rules about fn are left undecided.
+func pathDependentRecord(r *core.Run, fn *ssa.Function, c *ssa.Call, h *ssa.Function) string {
+	res := r.Resolver(h)
+	for idx := 0; idx < h.Signature.Results().Len(); idx++ {
+		isRec, clean := res.RecordStatus(h, idx)
+		if !isRec || clean {
+			continue
+		}
+		var rec ssa.Value = c
+		if _, isTup := c.Type().(*types.Tuple); isTup {
+			rec = nil
+			for _, ref := range *c.Referrers() {
+				if ex, ok := ref.(*ssa.Extract); ok && ex.Index == idx {
+					rec = ex
+				}
+			}
+		}
+		if rec == nil {
+			continue
+		}
+		handedTo := func(v ssa.Value) *ssa.Function {
+			for _, ref := range *v.Referrers() {
+				if c2, ok := ref.(ssa.CallInstruction); ok && !c2.Common().IsInvoke() {
+					if h2 := c2.Common().StaticCallee(); h2 != nil && h2 != h && r.P.Transparent(h2) {
+						return h2
+					}
+				}
+			}
+			return nil
+		}
+		h2 := handedTo(rec)
+		for _, ref := range *rec.Referrers() {
+			st, ok := ref.(*ssa.Store)
+			if !ok || st.Val != rec || h2 != nil {
+				continue
+			}
+			al, ok := st.Addr.(*ssa.Alloc)
+			if !ok {
+				continue
+			}
+			if h2 = handedTo(al); h2 != nil {
+				break
+			}
+			for _, ar := range *al.Referrers() {
+				if u, ok := ar.(*ssa.UnOp); ok && h2 == nil {
+					h2 = handedTo(u)
+				}
+			}
+		}
+		if h2 != nil {
+			return r.P.Name(fn) + " is built around a record that " + r.P.Name(h) + " fills in differently on different paths and hands back, and that " + r.P.Name(h2) + " works on (" + r.P.Pos(c.Pos()) + "): which alternative a field holds is tied to the path taken, and that tie is not tracked through the record"
 		}
 	}
 	return ""
